@@ -409,6 +409,15 @@ func (fr *FnRun) binop(st *State, x *ssa.BinOp) Val {
 		if ta.IsInt() && tb.IsInt() && ta.I.Sign() >= 0 && tb.I.Sign() >= 0 {
 			return IntB(new(big.Int).And(ta.I, tb.I))
 		}
+		// unsigned value AND a single-bit mask 2^k: bit k of the value, in place
+		if uns {
+			for _, pr := range [][2]*Term{{ta, tb}, {tb, ta}} {
+				v, c := pr[0], pr[1]
+				if c.IsInt() && c.I.Sign() > 0 && new(big.Int).And(c.I, new(big.Int).Sub(c.I, big.NewInt(1))).Sign() == 0 {
+					return Mul(Mod(Div(v, c), Int(2)), c)
+				}
+			}
+		}
 		return fr.bitUF(st, "bitand", ta, tb, typ)
 	case token.OR:
 		if ta.IsInt() && tb.IsInt() && ta.I.Sign() >= 0 && tb.I.Sign() >= 0 {
@@ -814,6 +823,11 @@ func (fr *FnRun) setArr(st *State, s *SliceV, av *ArrayV) {
 		panic(abortf("write to stale array %s (%s)", s.Arr, why))
 	}
 	st.checkWrite(s.Arr)
+	if s.Arr.Merged {
+		e := abortf("in-place write to %s, an array merged from two different backing arrays", s.Arr)
+		e.mergedWrite = s.Arr
+		panic(e)
+	}
 	if len(s.Base) == 0 {
 		st.heap[s.Arr] = av
 		return
